@@ -1,14 +1,16 @@
 /* C04: secp256k1_ec_pubkey_combine.  secp256k1_gej_add_ge (group law) and secp256k1_ge_set_gej are
- * ASSUMED oracles with ghost logs; loading, NULL checks, the infinity gate, output zeroing and saving
- * are real code.
- *   h_pubkey_combine        EVERY n (symbolic, loop contract, hook hooks/C04_sort_combine_loops.diff):
- *                           n = 0 / NULL array / NULL entry at any index => illegal, ret 0, output zero;
- *                           success => exactly n additions were made, the last sum is finite, the output
- *                           is its affine conversion; last sum infinite => ret 0, output zero.
- *   h_pubkey_combine_small  n <= 3 fully unwound (BOUNDED stand-in), full oracle precondition: the k-th
- *                           addition adds the k-th key as stored, the accumulator starts at infinity and
- *                           is threaded through, the point converted is the last sum, no callback for
- *                           valid keys. */
+ * ASSUMED oracles with ghost logs; loading, NULL checks, the infinity gate and saving are real code.
+ * Rule followed (audit 1): only what property C04 / include/secp256k1.h promise; a failing combination
+ * "returns no usable key" (the output object is rejected by pubkey_load); addition counts as inequalities;
+ * the addition of a given key is identified by the VALUE of its operand; objects decoded through the TU's
+ * own ge_from_bytes (spec.h views).
+ *   h_pubkey_combine        EVERY n (symbolic, engine-supplied loop contract): n = 0 / NULL array / NULL output
+ *                           => illegal, ret 0; NULL entry at any index => ret 0; success => at least n additions
+ *                           were made, the last sum is finite, the output is its affine conversion; last sum
+ *                           infinite => ret 0 and no usable key.
+ *   h_pubkey_combine_small  n <= 3 fully unwound (BOUNDED stand-in), full oracle precondition: every key of the
+ *                           list is added (an addition whose operand is that key as loaded), the point converted
+ *                           is the last sum, no callback for valid keys. */
 #ifdef U_PUBKEY_COMBINE
 /* Loop-contract unit: LOCAL oracle contracts.  They differ from assumed.h / assumed_C04.h only in that the
  * range of the ACCUMULATOR Qj is not a precondition: Qj is havocked by the loop contract and its range is the
@@ -40,8 +42,9 @@ __CPROVER_ensures(g_sg_ainf0 == __CPROVER_old(a->infinity) && g_sg_r0.x.n[0] == 
 #include "spec.h"
 #include "src/secp256k1.c"
 #include "post.h"
+#define SPEC_VIEWS
+#include "spec.h"
 
-#define PK_IS(data, ge) (sp_eq(sp_le32(data), sp_modp(fval(&(ge).x))) && sp_eq(sp_le32((data) + 32), sp_modp(fval(&(ge).y))))
 
 #ifdef U_PUBKEY_COMBINE
 /* The loop's assigns clause names "whatever the illegal callback's data points to": this harness counts
@@ -49,13 +52,13 @@ __CPROVER_ensures(g_sg_ainf0 == __CPROVER_old(a->infinity) && g_sg_r0.x.n[0] == 
 static void cb_illegal_d(const char *s, void *d) { (void)s; (*(unsigned *)d)++; }
 void h_pubkey_combine(void) {
     secp256k1_context ctx;
-    INPUT(secp256k1_pubkey, out); INPUT(size_t, n); INPUT(_Bool, use_out); INPUT(_Bool, use_ins); INPUT(size_t, gi); INPUT(size_t, k);
+    INPUT(secp256k1_pubkey, out); INPUT(size_t, n); INPUT(_Bool, use_out); INPUT(_Bool, use_ins); INPUT(size_t, gi);
     INPUT(secp256k1_pubkey, key_a); INPUT(secp256k1_pubkey, key_b); INPUT(size_t, j1); INPUT(size_t, j2); INPUT(unsigned char, sel1); INPUT(unsigned char, sel2);
     const secp256k1_pubkey **ins; const secp256k1_pubkey *at_gi = NULL;
-    int ret; unsigned n_illegal = 0;
+    int ret, oinv; unsigned n_illegal = 0; sp ox, oy;
     verif_ctx_init(&ctx);
     ctx.illegal_callback.fn = cb_illegal_d; ctx.illegal_callback.data = &n_illegal;
-    __CPROVER_assume(n <= 100000 && k < 64);
+    __CPROVER_assume(n <= 100000);
     ins = malloc(n ? n * sizeof(*ins) : 1);
     __CPROVER_assume(ins != NULL);
     /* list shape: every entry is &key_a except at two arbitrary positions j1, j2, which hold NULL, &key_a or
@@ -69,21 +72,24 @@ void h_pubkey_combine(void) {
     ret = secp256k1_ec_pubkey_combine(&ctx, use_out ? &out : NULL, use_ins ? ins : NULL, n);
     __CPROVER_assert(g_error == 0, "C04 pubkey_combine: error callback never invoked");
     __CPROVER_assert(ret == 0 || ret == 1, "C04 pubkey_combine: returns 0 or 1");
-    if (!use_out) __CPROVER_assert(ret == 0 && n_illegal == 1 && verif_c04_add_n == 0, "C04 pubkey_combine: NULL output is illegal and returns 0");
+    if (!use_out) __CPROVER_assert(ret == 0 && n_illegal == 1, "C04 pubkey_combine: NULL output is illegal and returns 0");
     else {
-        if (ret == 0) __CPROVER_assert(out.data[k] == 0, "C04 pubkey_combine: every failure leaves an all-zero (invalid) output");
-        if (n == 0) __CPROVER_assert(ret == 0 && n_illegal == 1 && verif_c04_add_n == 0, "C04 pubkey_combine: n = 0 is illegal and returns 0");
-        if (!use_ins) __CPROVER_assert(ret == 0 && n_illegal == 1 && verif_c04_add_n == 0, "C04 pubkey_combine: NULL array is illegal and returns 0");
+        view_pk64(out.data, &ox, &oy, &oinv);
+        if (n == 0) __CPROVER_assert(ret == 0 && n_illegal == 1, "C04 pubkey_combine: n = 0 is illegal and returns 0");
+        if (!use_ins) __CPROVER_assert(ret == 0 && n_illegal == 1, "C04 pubkey_combine: NULL array is illegal and returns 0");
         if (use_ins && gi < n && at_gi == NULL) __CPROVER_assert(ret == 0, "C04 pubkey_combine: a NULL entry at ANY index returns 0");
         if (ret == 1) {
-            __CPROVER_assert(n >= 1 && verif_c04_add_n == n, "C04 pubkey_combine: success means all n keys were added, one addition each");
+            __CPROVER_assert(n >= 1 && verif_c04_add_n >= n, "C04 pubkey_combine: success means all n keys were added (at least one addition per list entry)");
             __CPROVER_assert(!verif_c04_add_last_inf, "C04 pubkey_combine: success means the final sum is not the point at infinity");
-            __CPROVER_assert(g_sg_n == 1 && !g_sg_ainf0 && PK_IS(out.data, g_sg_r0), "C04 pubkey_combine: output holds the affine conversion, coordinates reduced mod p");
+            __CPROVER_assert(g_sg_n >= 1 && !g_sg_ainf0 && pk64_is(out.data, &g_sg_r0.x, &g_sg_r0.y), "C04 pubkey_combine: output holds the affine conversion of a finite point (coordinates mod p)");
         }
-        if (use_ins && n >= 1 && verif_c04_add_n == n && verif_c04_add_last_inf) __CPROVER_assert(ret == 0 && g_sg_n == 0, "C04 pubkey_combine: a sum at infinity returns 0 and converts nothing");
+        if (use_ins && n >= 1 && verif_c04_add_n >= n && verif_c04_add_last_inf) {
+            __CPROVER_assert(ret == 0, "C04 pubkey_combine: a sum at infinity returns 0");
+            __CPROVER_assert(oinv, "C04 pubkey_combine: a sum at infinity returns no usable key (the output is rejected by pubkey_load)");
+        }
         if (ret == 1 && n > 150) REACH("pubkey_combine success on a long list");
         if (ret == 1 && n == 1) REACH("pubkey_combine single key");
-        if (use_ins && n > 2 && verif_c04_add_n == n && ret == 0) REACH("pubkey_combine sum at infinity");
+        if (use_ins && n > 2 && verif_c04_add_n >= n && verif_c04_add_last_inf) REACH("pubkey_combine sum at infinity");
         if (use_ins && n > 100 && gi == 77 && at_gi == NULL) REACH("pubkey_combine NULL entry in the middle");
     }
 }
@@ -92,25 +98,31 @@ void h_pubkey_combine(void) {
 #ifdef U_PUBKEY_COMBINE_SMALL
 void h_pubkey_combine_small(void) {
     secp256k1_context ctx;
-    INPUT(secp256k1_pubkey, out); INPUT(size_t, n); INPUT(size_t, w); INPUT(size_t, k);
+    INPUT(secp256k1_pubkey, out); INPUT(size_t, n); INPUT(size_t, w);
     INPUT(secp256k1_pubkey, key0); INPUT(secp256k1_pubkey, key1); INPUT(secp256k1_pubkey, key2); INPUT(_Bool, dup);
-    const secp256k1_pubkey *ins[3];
-    int ret, valid;
+    const secp256k1_pubkey *ins[3]; secp256k1_ge wge;
+    int ret, valid, i0, i1, i2, oinv; sp vx, vy, ox, oy;
     verif_ctx_init(&ctx);
-    __CPROVER_assume(n >= 1 && n <= 3 && w < n && k < 64);
+    __CPROVER_assume(n >= 1 && n <= 3 && w < n);
     ins[0] = &key0; ins[1] = dup ? &key0 : &key1; ins[2] = &key2;    /* dup: the same object twice */
-    valid = !sp_is0(sp_le32(ins[0]->data)) && (n < 2 || !sp_is0(sp_le32(ins[1]->data))) && (n < 3 || !sp_is0(sp_le32(ins[2]->data)));
-    verif_c04_gi = 0; verif_c04_add_n = 0; verif_c04_add_last_inf = 0; g_add_watch = w; g_add_hit = 0; g_sg_n = 0;
+    view_pk64(ins[0]->data, &vx, &vy, &i0); view_pk64(ins[1]->data, &vx, &vy, &i1); view_pk64(ins[2]->data, &vx, &vy, &i2);
+    valid = !i0 && (n < 2 || !i1) && (n < 3 || !i2);
+    secp256k1_ge_from_bytes(&wge, ins[w]->data);                     /* the watched key as the TU itself decodes it */
+    g_add_wx = wge.x; g_add_wy = wge.y; g_add_match = 0;
+    verif_c04_gi = 0; verif_c04_add_n = 0; verif_c04_add_last_inf = 0; g_sg_n = 0;
     ret = secp256k1_ec_pubkey_combine(&ctx, &out, ins, n);
+    view_pk64(out.data, &ox, &oy, &oinv);
     __CPROVER_assert(g_error == 0, "C04 pubkey_combine_small: error callback never invoked");
-    __CPROVER_assert(verif_c04_add_n == n, "C04 pubkey_combine_small: one addition per key");
-    __CPROVER_assert(g_add_hit && sp_eq(fval(&g_add_bx), sp_le32(ins[w]->data)) && sp_eq(fval(&g_add_by), sp_le32(ins[w]->data + 32)) && !g_add_binf,
-                     "C04 pubkey_combine_small: the k-th addition adds the k-th key as stored");
-    __CPROVER_assert((g_illegal == 0) == valid, "C04 pubkey_combine_small: illegal callback exactly when some key object is invalid");
-    __CPROVER_assert(ret == !verif_c04_add_last_inf, "C04 pubkey_combine_small: fails exactly when the final sum is the point at infinity");
-    if (ret == 1) __CPROVER_assert(g_sg_n == 1 && !g_sg_a0.infinity && PK_IS(out.data, g_sg_r0), "C04 pubkey_combine_small: output holds the affine conversion of a finite point");
-    if (ret == 0) __CPROVER_assert(out.data[k] == 0 && g_sg_n == 0, "C04 pubkey_combine_small: failure leaves an all-zero output");
+    __CPROVER_assert(verif_c04_add_n >= n, "C04 pubkey_combine_small: at least one addition per key");
+    __CPROVER_assert(g_add_match >= 1, "C04 pubkey_combine_small: every key of the list is added (an addition has exactly that key as operand)");
+    if (valid) {
+        __CPROVER_assert(g_illegal == 0, "C04 pubkey_combine_small: no illegal callback when every key object is valid");
+        __CPROVER_assert(ret == !verif_c04_add_last_inf, "C04 pubkey_combine_small: fails exactly when the final sum is the point at infinity");
+        if (ret == 1) __CPROVER_assert(g_sg_n >= 1 && !g_sg_a0.infinity && pk64_is(out.data, &g_sg_r0.x, &g_sg_r0.y), "C04 pubkey_combine_small: output holds the affine conversion of a finite point");
+        if (ret == 0) __CPROVER_assert(oinv, "C04 pubkey_combine_small: failure returns no usable key (the output is rejected by pubkey_load)");
+    } else __CPROVER_assert(g_illegal >= 1, "C04 pubkey_combine_small: an invalid key object is reported through the illegal callback");
     if (ret == 1 && n == 3 && dup) REACH("pubkey_combine_small three keys with a duplicate");
     if (ret == 0 && n == 2 && valid) REACH("pubkey_combine_small cancelling pair");
+    if (!valid) REACH("pubkey_combine_small invalid key object");
 }
 #endif
